@@ -127,8 +127,8 @@ module.exports = {
   assumptions: ['the package wrapper is exercised through the real /repo/main.js with the native module replaced by a shim returning the harness response'],
   plan (ctx) {
     const shards = [{ kind: 'noop' }]
-    for (const s of structPlan(ctx, { quickCorpus: 120, cfgNames: Object.keys(SETS), exec: { quickRandom: 300, quickFormsPerPlacement: 3 } })) shards.push(s)
-    for (const s of structPlan(ctx, { quickCorpus: 60, generated: true, exec: { quickRandom: 150, quickFormsPerPlacement: 1, includeKnown: false } })) shards.push(Object.assign({ emptyCfg: true }, s))
+    for (const s of structPlan(ctx, { quickCorpus: 300, cfgNames: Object.keys(SETS), exec: { quickRandom: 1500, quickFormsPerPlacement: 8 } })) shards.push(s)
+    for (const s of structPlan(ctx, { quickCorpus: 150, generated: true, exec: { quickRandom: 600, quickFormsPerPlacement: 3, includeKnown: false } })) shards.push(Object.assign({ emptyCfg: true }, s))
     return shards
   },
   minEvaluations () { return 300 },
